@@ -78,6 +78,8 @@ type CallRec struct {
 	Done      bool
 	H         HandlerObs
 	Req2, Req3 []byte
+	Req2Dest  []byte            // arg2 as the destination must see it (differs from Req2 when relays append)
+	Req2Hop   map[string][]byte // arg2 as emitted by a given relay node
 	wantRes2, wantRes3 []byte
 	Cancelled bool
 	CancelAt  time.Duration
@@ -85,6 +87,58 @@ type CallRec struct {
 
 func (c *CallRec) cmd() string {
 	return fmt.Sprintf("tag=%s;mode=%s;delay=%d;code=%d;rs2=%d;rs3=%d;msg=%s", c.Spec.Tag, c.Spec.Mode, int64(c.Spec.Delay), c.Spec.Code, c.Spec.Rs2, c.Spec.Rs3, c.Spec.Msg)
+}
+
+// encodeKV builds a thrift-scheme arg2: nh:2 (k~2 v~2)*.
+func encodeKV(kvs [][2][]byte) []byte {
+	out := []byte{byte(len(kvs) >> 8), byte(len(kvs))}
+	for _, kv := range kvs {
+		out = append(out, byte(len(kv[0])>>8), byte(len(kv[0])))
+		out = append(out, kv[0]...)
+		out = append(out, byte(len(kv[1])>>8), byte(len(kv[1])))
+		out = append(out, kv[1]...)
+	}
+	return out
+}
+
+// decodeKV is the harness's own reading of a thrift-scheme arg2.
+func decodeKV(b []byte) ([][2][]byte, bool) {
+	if len(b) < 2 {
+		return nil, false
+	}
+	n := int(b[0])<<8 | int(b[1])
+	b = b[2:]
+	var out [][2][]byte
+	for i := 0; i < n; i++ {
+		var kv [2][]byte
+		for j := 0; j < 2; j++ {
+			if len(b) < 2 {
+				return nil, false
+			}
+			l := int(b[0])<<8 | int(b[1])
+			if len(b) < 2+l {
+				return nil, false
+			}
+			kv[j] = b[2 : 2+l]
+			b = b[2+l:]
+		}
+		out = append(out, kv)
+	}
+	return out, len(b) == 0
+}
+
+// parseArg2 understands both request encodings (text and thrift key/values).
+func parseArg2(thrift bool, b []byte) (cmd map[string]string, pad []byte, extra [][2][]byte) {
+	if !thrift {
+		cmd, pad = parseCmd(b)
+		return
+	}
+	kvs, ok := decodeKV(b)
+	if !ok || len(kvs) < 2 || string(kvs[0][0]) != "c" || string(kvs[1][0]) != "p" {
+		return nil, nil, nil
+	}
+	cmd, _ = parseCmd(append(append([]byte(nil), kvs[0][1]...), '\n'))
+	return cmd, kvs[1][1], kvs[2:]
 }
 
 func parseCmd(b []byte) (map[string]string, []byte) {
@@ -112,9 +166,18 @@ func (w *World) newCall(s CallSpec) *CallRec {
 		s.Mode = "echo"
 	}
 	r := &CallRec{Spec: s}
-	r.Req2 = append([]byte(r.cmd()+"\n"), payload(s.Tag, 2, s.Pad2)...)
+	pad := payload(s.Tag, 2, s.Pad2)
+	if s.Opts != nil && s.Opts.Format == tchannel.Thrift {
+		if len(pad) > 65000 {
+			pad = pad[:65000]
+		}
+		r.Req2 = encodeKV([][2][]byte{{[]byte("c"), []byte(r.cmd())}, {[]byte("p"), pad}})
+	} else {
+		r.Req2 = append([]byte(r.cmd()+"\n"), pad...)
+	}
+	r.Req2Dest = r.Req2
 	r.Req3 = payload(s.Tag, 3, s.Len3)
-	r.wantRes2, r.wantRes3 = expectedResponse(s.Tag, s.Rs2, s.Rs3, r.Req2[len(r.cmd())+1:], r.Req3)
+	r.wantRes2, r.wantRes3 = expectedResponse(s.Tag, s.Rs2, s.Rs3, pad, r.Req3)
 	w.Calls = append(w.Calls, r)
 	w.callTag[s.Tag] = r
 	return r
@@ -151,11 +214,12 @@ func writeArgRaw(wr tchannel.ArgWriter, err error, data []byte, pat int) error {
 			n := len(rest)
 			switch pat {
 			case 1, 3:
-				k := 1 + app(4096)
-				if app(4) == 0 {
-					k = 1 + app(70000)
+				// a zero on the tape is the plainest choice: write everything at once
+				k := app(4097)
+				if app(4) == 3 {
+					k = app(70001)
 				}
-				if k < n {
+				if k > 0 && k < n {
 					n = k
 				}
 			case 2:
@@ -163,7 +227,7 @@ func writeArgRaw(wr tchannel.ArgWriter, err error, data []byte, pat int) error {
 					n = 1
 				}
 			}
-			if app(16) == 0 {
+			if app(16) == 15 {
 				if _, err := wr.Write(nil); err != nil { // zero-length write
 					return err
 				}
@@ -172,7 +236,7 @@ func writeArgRaw(wr tchannel.ArgWriter, err error, data []byte, pat int) error {
 				return err
 			}
 			rest = rest[n:]
-			if pat == 3 && app(3) == 0 {
+			if pat == 3 && app(3) == 2 {
 				if err := wr.Flush(); err != nil {
 					return err
 				}
@@ -197,9 +261,9 @@ func readArgRaw(rd tchannel.ArgReader, err error, pat int, want int) ([]byte, er
 			return out, err
 		}
 	case 2:
-		buf := make([]byte, 1+app(5000))
+		buf := make([]byte, 5000-app(5000))
 		for {
-			n, err := rd.Read(buf[:1+app(len(buf))])
+			n, err := rd.Read(buf[:len(buf)-app(len(buf))])
 			out = append(out, buf[:n]...)
 			if err == io.EOF {
 				break
@@ -379,7 +443,7 @@ func (h *echoHandler) Handle(ctx context.Context, call *tchannel.InboundCall) {
 	var cmd map[string]string
 	var pad []byte
 	if err == nil {
-		cmd, pad = parseCmd(a2)
+		cmd, pad, _ = parseArg2(call.Format() == tchannel.Thrift, a2)
 		if cmd != nil {
 			rec = w.callTag[cmd["tag"]]
 		}
@@ -426,13 +490,16 @@ func (h *echoHandler) Handle(ctx context.Context, call *tchannel.InboundCall) {
 		return
 	}
 	if rec != nil {
-		obs.Arg2OK = bytes.Equal(a2, rec.Req2)
+		obs.Arg2OK = bytes.Equal(a2, rec.Req2Dest)
 		obs.Arg3OK = bytes.Equal(a3, rec.Req3)
 		w.eval("C04.request-match")
 		if !obs.Arg2OK || !obs.Arg3OK {
-			d := fmt.Sprintf("handler on %s received wrong arguments for call %s as a complete request: arg2 %s arg3 %s", h.n.Name, tag, diffDesc(a2, rec.Req2), diffDesc(a3, rec.Req3))
+			d := fmt.Sprintf("handler on %s received wrong arguments for call %s as a complete request: arg2 %s arg3 %s", h.n.Name, tag, diffDesc(a2, rec.Req2Dest), diffDesc(a3, rec.Req3))
 			w.violate("C04", "wrong-request", "%s", d)
 			w.violate("C01", "wrong-request", "%s", d)
+			if rec.Spec.Via != "direct" {
+				w.violate("C08", "wrong-request", "%s", d)
+			}
 		}
 	}
 	delay, _ := strconv.ParseInt(cmd["delay"], 10, 64)
